@@ -22,6 +22,11 @@ pub trait SimHooks {
     fn num_threads(&mut self) -> usize {
         4
     }
+    /// A free choice among `n` alternatives the real pool would make by timing
+    /// (where a fold is split, which adjacent partial results are reduced next).
+    fn choose(&mut self, _n: usize, _site: &'static str) -> usize {
+        0
+    }
     /// Mode T: run the next parallel section of `n` items on this many real
     /// threads under the baton scheduler, with the given chooser. `None` = Mode P.
     fn mode_t(&mut self, _n: usize) -> Option<(usize, baton::Chooser)> {
@@ -78,6 +83,13 @@ pub fn fill(buf: &mut [u8]) {
 
 pub fn mode_t(n: usize) -> Option<(usize, baton::Chooser)> {
     with_hooks(|h| h.mode_t(n)).flatten()
+}
+
+pub fn choose(n: usize, site: &'static str) -> usize {
+    if n <= 1 {
+        return 0;
+    }
+    with_hooks(|h| h.choose(n, site)).unwrap_or(0) % n
 }
 
 pub fn num_threads() -> usize {
